@@ -271,15 +271,17 @@ Proof.
   destruct (Z.leb_spec (dtrunc_int c) Tally.UINT64_MAX); [discriminate|unfold Tally.UINT64_MAX in *; lia].
 Qed.
 
+Definition ex_da_params_0 : Da.params := Da.Pm 0 (5 * P) 1000000000 1000000000 1000000000 1000000000 [0] [0].
 Definition da_inv (i : da_in) : Prop :=
   let p := Da.s_prm (di_state i) in
   da_params_ok p (di_sft i) (di_slash_epoch i) = true /\
   Forall (fun it => 1 <= Da.i_n it <= N_MAX) (Da.s_items (di_state i)) /\
-  0 <= di_nact i /\ 0 <= di_cc i < 2 ^ 63.
+  0 <= di_nact i /\ 0 <= di_cc i < 2 ^ 63 /\
+  field_ok 1 (di_sfr i) = true.      (* Params.Validate: slash_fraction parses and lies in [0,1] *)
 
 Theorem da_end_total height now i : da_inv i -> exists r, da_end true height now i = Ok r.
 Proof.
-  intros (Hp & Hitems & Hna & Hcc). unfold da_end.
+  intros (Hp & Hitems & Hna & Hcc & Hsfr). unfold da_end.
   unfold da_params_ok, da_params_ok_found in Hp.
   set (p := Da.s_prm (di_state i)) in *.
   assert (Hrf : 0 < Da.pr_rf p <= RF_MAX) by lia.
@@ -296,9 +298,18 @@ Proof.
   - rewrite E. cbn [rbind].
     destruct (Z.eqb_spec (di_slash_epoch i) 0); [lia|].
     destruct (height mod di_slash_epoch i =? 0); [|eexists; reflexivity].
+    destruct (di_sfr i) as [sfr|]; [|discriminate Hsfr].
     destruct (Tally.slash_threshold (di_sft i) (di_cc i)) eqn:Es; [eexists; reflexivity|].
     exfalso. revert Es. apply slash_threshold_total; lia.
 Qed.
+
+(* a slash_fraction that does not parse (accepted by a validation that forgets the field): the end
+   blocker panics at the next multiple of slash_epoch *)
+Theorem da_unparsable_slash_fraction_halts :
+  da_end true 2000 5000000000
+    {| di_state := Da.St ex_da_params_0 [] [] [] []; di_bank := {| bal := fun _ _ => 0; sup := fun _ => 0 |};
+       di_nact := 1; di_sft := HALF; di_sfr := None; di_cc := 0; di_slash_epoch := 1000 |} = Panic.
+Proof. vm_compute. reflexivity. Qed.
 
 (* ------------------------------------------------------------------ share-class EndBlocker *)
 Definition amounts_nonneg (q : list ShareClass.unb) : Prop := Forall (fun e => 0 <= ShareClass.u_amt e) q.
@@ -418,7 +429,7 @@ Definition w_da_params : Da.params := Da.Pm 0 (10 ^ 19 * P) 1000000000 100000000
 Definition w_da_in : da_in :=
   {| di_state := Da.St w_da_params [Da.It 1 Da.ST_CH 0 1 0 1 [0] [0]] [] [] [];
      di_bank := {| bal := fun _ _ => 0; sup := fun _ => 0 |};
-     di_nact := 1; di_sft := HALF; di_cc := 0; di_slash_epoch := 1000 |}.
+     di_nact := 1; di_sft := HALF; di_sfr := Some 0; di_cc := 0; di_slash_epoch := 1000 |}.
 Theorem da_replication_factor_halts :
   da_params_ok_found w_da_params HALF 1000 = true /\
   da_end false 7 5000000000 w_da_in = Panic /\
@@ -474,7 +485,7 @@ Definition ex_block : block_in :=
                        mi_ratio := 333333333333333333 |};
      b_da := {| di_state := Da.St ex_da_params [Da.It 1 Da.ST_CH 0 4 2 1 [0] [0]] [] [] [];
                 di_bank := {| bal := fun _ _ => 0; sup := fun _ => 0 |};
-                di_nact := 3; di_sft := HALF; di_cc := 2; di_slash_epoch := 5 |};
+                di_nact := 3; di_sft := HALF; di_sfr := Some 1000000000000000; di_cc := 2; di_slash_epoch := 5 |};
      b_epoch_blocks := 3;
      b_vals := [{| v_id := 1; v_tok := 1000000; v_sh := 1000000 * P |}];
      b_ballots := [{| b_voter := 1; b_w := [(0, P)]; b_dels := [(1, 400000 * P)] |}];
